@@ -373,10 +373,11 @@ def run_shard(shard):
         pass
 
     def absorb(fails, rep):
-        from mc.core import e2e
+        from mc.core import e2e, guard
 
-        if e2e.World.hang_count > hangs[0]:
-            hangs[0] = e2e.World.hang_count
+        hc = max(e2e.World.hang_count, guard.hangs())
+        if hc > hangs[0]:
+            hangs[0] = hc
             fails = list(fails) + [("hang", "buffer-process-cpu-limit", "Buffer.process was stopped by the CPU watchdog (%d times in this shard) - %r" % (hangs[0], rep))]
         for clause, disc, whatmsg in fails:
             if "no quiescence" in whatmsg:
@@ -389,10 +390,15 @@ def run_shard(shard):
         if hangs[0] >= 2:
             raise TooManyHangs()  # every further execution would burn the CPU watchdog again: the finding is recorded
 
+    from mc.core.e2e import HandshakeFailed
+
     try:
         _run(shard, tier, seed, what, res, absorb)
     except TooManyHangs:
         res["counters"]["aborted_after_hangs"] = 1
+    except HandshakeFailed as e:
+        key = ("handshake-failed", "client-start")
+        sig[key] = {"clause": key[0], "disc": key[1], "count": 1, "what": str(e), "replay": dict(kind="d1", n=0, seed=seed, mode="whole")}
     res["states"] += res["executions"]
     res["transitions"] += res["executions"]
     res["violations"] = list(sig.values())
@@ -496,6 +502,15 @@ def finish(tier, seed, m):
 
 
 def replay(rep):
+    from mc.core.e2e import HandshakeFailed
+
+    try:
+        return _replay(rep)
+    except HandshakeFailed as e:
+        return [{"clause": "handshake-failed", "disc": "client-start", "what": str(e)}]
+
+
+def _replay(rep):
     f = []
     k = rep["kind"]
     res = {"states": 0, "transitions": 0}
